@@ -606,6 +606,11 @@ class Engine:
         oracle = Oracle()
         obligations = []
         obligations.extend(self.prove_lemmas(ct))
+        obligations.extend(self.independence_obligations(ct))
+        if ct.ghost.get("dataflow_only"):
+            # the contract consists of iteration-independence clauses only: no symbolic run of the body
+            self.find_function(ct)
+            return {"contract": ct, "obligations": obligations, "paths": 0, "dead": 0, "symex_s": 0.0}
         paths = dead = 0
         t0 = time.time()
         while oracle.worklist:
@@ -622,6 +627,39 @@ class Engine:
                 obligations.append(ob)
                 break
         return {"contract": ct, "obligations": obligations, "paths": paths, "dead": dead, "symex_s": time.time() - t0}
+
+    def independence_obligations(self, ct):
+        """ghost['independent_iterations'] = {loop ordinal: [accumulators]}: decided by pyvc.dataflow (def-before-use), not by a solver"""
+        spec = ct.ghost.get("independent_iterations")
+        if not spec:
+            return []
+        from .dataflow import check_loop
+        mod, cls, fn = self.find_function(ct)
+        loops = [n for n in ast.walk(fn) if isinstance(n, ast.For)]
+        loops.sort(key=lambda n: (n.lineno, n.col_offset))
+        obs = []
+        for ordinal, accs in spec.items():
+            if ordinal >= len(loops):
+                ob = Obligation(f"{ct.cid}:unsupported:independent loop{ordinal}", "unsupported", "loop not found", [], z3.BoolVal(False), "-")
+                ob.verdict, ob.detail = "undecided", f"the function has no for-loop number {ordinal}"
+                obs.append(ob)
+                continue
+            problems = check_loop(loops[ordinal], accs)
+            for what in ("no-value-carried-between-iterations", "accumulators-only-extended", "every-element-processed"):
+                kinds = {"no-value-carried-between-iterations": ("read-before-assignment",),
+                         "accumulators-only-extended": ("accumulator-read", "accumulator-rebound"),
+                         "every-element-processed": ("break",)}[what]
+                bad = [p for p in problems if p[0] in kinds]
+                ob = Obligation(f"{ct.cid}:independent:loop{ordinal}.{what}", "independent", what, [], z3.BoolVal(not bad), "-",
+                                info={"clause": f"iterations of loop {ordinal} are independent: {what} (accumulators {list(accs)})"})
+                ob.verdict = "sat" if bad else "unsat"
+                ob.backend = "dataflow"
+                ob.ms = 0
+                ob.model = None
+                if bad:
+                    ob.detail = "; ".join(f"{k}: '{n}' at line {fn.lineno and ln}" for k, n, ln in bad[:4])
+                obs.append(ob)
+        return obs
 
     # ------------------------------------------------------------------ solving
     def unfold_axioms(self, formulas, depth=2):
